@@ -314,6 +314,8 @@ def rule_refs(E, R):
 
 def run(F, R, tier):
     E = F.engine
+    import witness
+    witness.report(R, "W16", "W16")
     rule_writers(E, R)
     rule_vacant(E, R)
     rule_exact(E, R)
